@@ -384,22 +384,11 @@ def _sp_valid(c):
 
 
 def _combos(tier, opt_axes, sp_axes, valid=None, cap=400):
-    """option axes x space axes: all-pairs (quick) / full product, thinned deterministically above `cap` (thorough)."""
+    """option axes x space axes: all-pairs (quick) / full product or all-pairs + sample of `cap` members (thorough)."""
     from collections import OrderedDict as OD
     from . import catutil as U
     axes = OD(list(opt_axes.items()) + list(sp_axes.items()))
-
-    def ok(c):
-        return _sp_valid(c) and (valid is None or valid(c))
-    pw = U.pairwise(axes, ok)
-    if tier == 'quick':
-        return pw
-    full = [c for c in U.product(axes) if ok(c)]
-    if len(full) > cap:
-        step = len(full) // cap + 1
-        keep = {tuple(c.values()) for c in pw}
-        full = [c for i, c in enumerate(full) if i % step == 0 or tuple(c.values()) in keep]
-    return full
+    return U.cross(tier, axes, lambda c: _sp_valid(c) and (valid is None or valid(c)), cap)
 
 
 def _o(c, lab, *names, **extra):
@@ -670,4 +659,446 @@ def wide_recipes(tier, add):
 
 
 def wide_recipes_2(tier, add):
-    pass
+    """product-space operators, finite differences, resizing, transforms"""
+    from collections import OrderedDict as OD
+    import scipy.sparse
+    from odl.util import COOMatrix
+    from . import catutil as U
+    vec = U.vec
+    quick = tier == 'quick'
+
+    # ---------------------------------------------------------------- building blocks for block operators
+    def blocks(field, comp):
+        """-> dict of small operators on X = base(2) / Y = base(3) (component weighting `comp`)"""
+        dt = 'complex128' if field == 'complex' else 'float64'
+        kwx = {'none': {}, 'const': {'weighting': 2.0}, 'array': {'weighting': [1.0, 4.0]}}[comp]
+        kwy = {'none': {}, 'const': {'weighting': 0.5}, 'array': {'weighting': [2.0, 1.0, 0.5]}}[comp]
+        X = odl.tensor_space(2, dtype=dt, **kwx)
+        Y = odl.tensor_space(3, dtype=dt, **kwy)
+        a = (1 - 2j) if field == 'complex' else -2.0
+        m = np.array([[1.0, 0.0, 2.0], [0.0, -1.0, 1.0]]).astype(dt)
+        if field == 'complex':
+            m = m * (1 + 1j)
+        return {'X': X, 'Y': Y, 'I': odl.IdentityOperator(X), 'S': odl.ScalingOperator(X, a),
+                'V': odl.MultiplyOperator(vec(X)), 'Iy': odl.IdentityOperator(Y), 'Sy': odl.ScalingOperator(Y, a),
+                # rectangular blocks between unweighted X / Y only (MatrixOperator ignores weightings: KF-C05-5)
+                'M': odl.MatrixOperator(m, domain=odl.tensor_space(3, dtype=dt), range=odl.tensor_space(2, dtype=dt))}
+
+    def coo(entries, shape, order):
+        """entries: list of (row, col, op) ; order: row-major / col-major / reversed"""
+        ent = sorted(entries, key=(lambda e: (e[0], e[1])) if order == 'row-major' else (lambda e: (e[1], e[0])))
+        if order == 'reversed':
+            ent = ent[::-1]
+        data = np.empty(len(ent), dtype=object)
+        data[:] = [e[2] for e in ent]
+        return COOMatrix(data, ([e[0] for e in ent], [e[1] for e in ent]), shape)
+
+    def pso(layout, form, field, comp, spaces_given):
+        B = blocks(field, comp)
+        I, S, V, X = B['I'], B['S'], B['V'], B['X']
+        # 'rect': blocks between DIFFERENT component spaces (Z = unweighted base(3), X, Y): [[M, 0], [A, 0]] with
+        # M: Z -> W (2x3 matrix), A: Z -> Y, zero blocks X -> W, X -> Y
+        Z = odl.tensor_space(3, dtype=X.dtype)
+        W = odl.tensor_space(2, dtype=X.dtype)
+        A = odl.ZeroOperator(Z, B['Y']) if comp != 'none' else odl.ScalingOperator(Z, 2.0)
+        ent = {'full-2x2': [(0, 0, I), (0, 1, S), (1, 0, V), (1, 1, S)],
+               'with-None': [(0, 0, I), (0, 1, S), (1, 0, V)],
+               'upper-tri-3x3': [(0, 0, I), (0, 1, S), (0, 2, V), (1, 1, S), (1, 2, I), (2, 2, V)],
+               'single-row': [(0, 0, I), (0, 1, S), (0, 2, V)],
+               'single-col': [(0, 0, I), (1, 0, S), (2, 0, V)],
+               'diag': [(0, 0, S), (1, 1, V)],
+               'antidiag': [(0, 1, S), (1, 0, V)],
+               'one-by-one': [(0, 0, V)],
+               'empty-row': [(0, 0, I), (0, 1, S)],             # 2x2 with an empty second row: range must be given
+               'empty-col': [(0, 0, I), (1, 0, S)],             # 2x2 with an empty second column: domain must be given
+               'rect': [(0, 0, B['M']), (1, 0, A), (1, 1, odl.ZeroOperator(X, A.range))],
+               }[layout]
+        shape = {'full-2x2': (2, 2), 'with-None': (2, 2), 'upper-tri-3x3': (3, 3), 'single-row': (1, 3), 'single-col': (3, 1),
+                 'diag': (2, 2), 'antidiag': (2, 2), 'one-by-one': (1, 1), 'empty-row': (2, 2), 'empty-col': (2, 2),
+                 'rect': (2, 2)}[layout]
+        kw = {}
+        need = layout in ('empty-row', 'empty-col')
+        if layout == 'rect':
+            doms, rans = [Z, X], [W, A.range]
+        else:
+            doms, rans = [X] * shape[1], [X] * shape[0]
+        if spaces_given == 'given' or need:
+            kw['domain'] = odl.ProductSpace(*doms)
+            kw['range'] = odl.ProductSpace(*rans)
+        if form == 'list':
+            rows = [[None] * shape[1] for _ in range(shape[0])]
+            for i, j, op in ent:
+                rows[i][j] = op
+            return odl.ProductSpaceOperator(rows, **kw)
+        if form == 'list-zeros':
+            rows = [[0] * shape[1] for _ in range(shape[0])]
+            for i, j, op in ent:
+                rows[i][j] = op
+            return odl.ProductSpaceOperator(rows, **kw)
+        return odl.ProductSpaceOperator(coo(ent, shape, form[4:]), **kw)
+    LAY = ['full-2x2', 'with-None', 'upper-tri-3x3', 'single-row', 'single-col', 'diag', 'antidiag', 'one-by-one', 'empty-row',
+           'empty-col', 'rect']
+    for c in U.cross(tier, OD([('blocks', LAY), ('form', ['list', 'list-zeros', 'coo-row-major', 'coo-col-major', 'coo-reversed']),
+                               ('field', ['real', 'complex']), ('comp-weighting', ['none', 'const', 'array']),
+                               ('spaces', ['inferred', 'given'])])):
+        o = dict(c)
+        add('ProductSpaceOperator', o, lambda c=c: pso(c['blocks'], c['form'], c['field'], c['comp-weighting'], c['spaces']))
+    # nested: blocks that are themselves block operators (domain / range are product spaces of product spaces)
+    for fld in ('real', 'complex'):
+        def nested(fld=fld, depth2=False):
+            inner = pso('full-2x2', 'list', fld, 'none', 'inferred')
+            inner2 = pso('antidiag', 'coo-col-major', fld, 'none', 'inferred')
+            return odl.ProductSpaceOperator([[inner, inner2], [None, inner]])
+        add('ProductSpaceOperator', {'blocks': 'nested', 'field': fld}, nested)
+        add('DiagonalOperator', {'parts': 'nested', 'field': fld},
+            lambda fld=fld: odl.DiagonalOperator(pso('full-2x2', 'list', fld, 'none', 'inferred'), blocks(fld, 'none')['S']))
+        add('BroadcastOperator', {'parts': 'nested', 'field': fld},
+            lambda fld=fld: odl.BroadcastOperator(pso('full-2x2', 'list', fld, 'none', 'inferred'),
+                                                  pso('antidiag', 'coo-col-major', fld, 'none', 'inferred')))
+        add('ReductionOperator', {'parts': 'nested', 'field': fld},
+            lambda fld=fld: odl.ReductionOperator(pso('full-2x2', 'list', fld, 'none', 'inferred'),
+                                                  pso('antidiag', 'coo-col-major', fld, 'none', 'inferred')))
+
+    # Broadcast / Reduction / Diagonal: argument forms x parts x field x component weighting
+    def parts(which, field, comp):
+        B = blocks(field, comp)
+        return {'two': (B['I'], B['S']), 'one': (B['V'],), 'three': (B['S'], B['V'], B['I']), 'int-form': (B['S'], 3),
+                'int-one': (B['V'], 1), 'same-twice': (B['V'], B['V'])}[which]
+    for c in U.cross(tier, OD([('parts', ['two', 'one', 'three', 'int-form', 'int-one', 'same-twice']), ('field', ['real', 'complex']),
+                               ('comp-weighting', ['none', 'const', 'array'])])):
+        o = dict(c)
+        add('BroadcastOperator', o, lambda c=c: odl.BroadcastOperator(*parts(c['parts'], c['field'], c['comp-weighting'])))
+        add('ReductionOperator', o, lambda c=c: odl.ReductionOperator(*parts(c['parts'], c['field'], c['comp-weighting'])))
+        add('DiagonalOperator', o, lambda c=c: odl.DiagonalOperator(*parts(c['parts'], c['field'], c['comp-weighting'])))
+
+        def diag_given(c=c):
+            ops = parts(c['parts'], c['field'], c['comp-weighting'])
+            n = ops[1] if isinstance(ops[1] if len(ops) > 1 else None, int) else len(ops)
+            X = ops[0].domain
+            return odl.DiagonalOperator(*ops, domain=odl.ProductSpace(X, n), range=odl.ProductSpace(X, n))
+        add('DiagonalOperator', dict(o, spaces='given'), diag_given)
+    for fld in ('real', 'complex'):
+        # rectangular parts (different domains / ranges per part)
+        add('DiagonalOperator', {'parts': 'rect', 'field': fld}, lambda fld=fld: odl.DiagonalOperator(blocks(fld, 'none')['M'], blocks(fld, 'none')['S']))
+        add('BroadcastOperator', {'parts': 'rect', 'field': fld}, lambda fld=fld: odl.BroadcastOperator(blocks(fld, 'none')['M'], blocks(fld, 'none')['Iy']))
+        add('ReductionOperator', {'parts': 'rect', 'field': fld}, lambda fld=fld: odl.ReductionOperator(blocks(fld, 'none')['M'], blocks(fld, 'none')['S']))
+
+    # ComponentProjection / ComponentProjectionAdjoint: index forms x product-space forms x weighting x field
+    IDX = {'first': 0, 'last': 'last', 'neg': -1, 'list': 'list', 'list-one': [0], 'slice': slice(0, 2), 'slice-step': slice(None, None, 2)}
+
+    def cp_ok(c):
+        n = {'power1': 1, 'power2': 2, 'power3': 3, 'general': 2, 'nested': 2, 'nested-general': 2}[c['form']]
+        if c['index'] == 'slice-step' and n < 3:
+            return False
+        return True
+
+    def cp(cls, c):
+        base = odl.cn(2) if c['field'] == 'complex' else odl.rn(2)
+        ps = U.mk_pspace(base, c['form'], c['pspace-weighting'])
+        i = IDX[c['index']]
+        if i == 'last':
+            i = len(ps) - 1
+        elif i == 'list':
+            i = list(range(len(ps)))[::-1]
+        return cls(ps, i)
+    for c in U.cross(tier, OD([('index', list(IDX)), ('form', ['power1', 'power2', 'power3', 'general', 'nested', 'nested-general']),
+                               ('pspace-weighting', ['none', 'const', 'array']), ('field', ['real', 'complex'])]), cp_ok):
+        o = dict(c)
+        add('ComponentProjection', o, lambda c=c: cp(odl.ComponentProjection, c))
+        add('ComponentProjectionAdjoint', o, lambda c=c: cp(odl.ComponentProjectionAdjoint, c))
+    wide_recipes_3(tier, add)
+
+
+def wide_recipes_3(tier, add):
+    """finite differences, resizing, Fourier and wavelet transforms"""
+    from collections import OrderedDict as OD
+    from . import catutil as U
+    DSH = {'1d': (4,), '2d': (3, 4), '3d': (2, 3, 2)}
+    DSD = {'1d': [0.5], '2d': [0.5, 2.0], '3d': [0.5, 1.0, 2.0]}
+    PADS = ['constant', 'symmetric', 'periodic', 'order0', 'order1', 'order2',
+            'symmetric_adjoint', 'order0_adjoint', 'order1_adjoint', 'order2_adjoint']
+    METH = ['forward', 'backward', 'central']
+    dsp_axes = _space_axes(kinds=('discr',))
+
+    def dsp(c):
+        return _sp(c, shapes=DSH, sides=DSD)
+
+    def other_dtype(sp):
+        """the same discretisation with the other precision (a valid `range` of the difference operators)"""
+        return sp.astype({'float64': 'float32', 'float32': 'float64', 'complex128': 'complex64', 'complex64': 'complex128'}[
+            np.dtype(sp.dtype).name])
+
+    def ax_of(c, nd):
+        return {'first': 0, 'last': nd - 1, 'neg-last': -1, 'neg-first': -nd}[c['axis']]
+
+    def pd_ok(c):
+        nd = len(DSH[c['shape']])
+        n = DSH[c['shape']][ax_of(c, nd)]
+        if c['pad_mode'] in ('order2', 'order2_adjoint') and n < 3:
+            return False
+        if c['pad_const'] == 'nonzero-unused' and c['pad_mode'] == 'constant':
+            return False
+        if c['range'] == 'other-dtype' and c['weighting'] == 'array':
+            return False            # astype of an array-weighted space raises (KF-C20-6)
+        return True
+    for c in _combos(tier, OD([('axis', ['first', 'last', 'neg-last', 'neg-first']), ('method', METH), ('pad_mode', PADS),
+                               ('range', ['default', 'given', 'other-dtype']), ('pad_const', ['zero', 'nonzero-unused'])]),
+                     dsp_axes, pd_ok):
+        lab, sp = dsp(c)
+
+        def mk(sp=sp, c=c):
+            kw = {}
+            if c['range'] == 'given':
+                kw['range'] = sp
+            elif c['range'] == 'other-dtype':
+                kw['range'] = other_dtype(sp)
+            if c['pad_const'] != 'zero':
+                kw['pad_const'] = 1.5
+            return odl.PartialDerivative(sp, ax_of(c, sp.ndim), method=c['method'], pad_mode=c['pad_mode'], **kw)
+        add('PartialDerivative', _o(c, lab, 'axis', 'method', 'pad_mode', 'range', 'pad_const'), mk)
+
+    def gd_ok(c):
+        if c['pad_mode'] in ('order2', 'order2_adjoint') and min(DSH[c['shape']]) < 3:
+            return False
+        if c['pad_const'] == 'nonzero-unused' and c['pad_mode'] == 'constant':
+            return False
+        return True
+    for c in _combos(tier, OD([('method', METH), ('pad_mode', PADS),
+                               ('spaces', ['domain', 'range', 'both', 'range-const', 'range-array']),
+                               ('pad_const', ['zero', 'nonzero-unused'])]), dsp_axes, gd_ok):
+        lab, sp = dsp(c)
+
+        def vfs(sp=sp, c=c):
+            w = {'range-const': {'weighting': 2.0}, 'range-array': {'weighting': [1.0, 4.0, 0.5][:sp.ndim]}}.get(c['spaces'], {})
+            return odl.ProductSpace(sp, sp.ndim, **w)
+
+        def mkg(sp=sp, c=c, vfs=vfs):
+            kw = {'pad_const': 1.5} if c['pad_const'] != 'zero' else {}
+            if c['spaces'] == 'domain':
+                return odl.Gradient(sp, method=c['method'], pad_mode=c['pad_mode'], **kw)
+            if c['spaces'] == 'both':
+                return odl.Gradient(sp, vfs(), method=c['method'], pad_mode=c['pad_mode'], **kw)
+            return odl.Gradient(range=vfs(), method=c['method'], pad_mode=c['pad_mode'], **kw)
+
+        def mkd(sp=sp, c=c, vfs=vfs):
+            kw = {'pad_const': 1.5} if c['pad_const'] != 'zero' else {}
+            if c['spaces'] == 'domain':
+                return odl.Divergence(range=sp, method=c['method'], pad_mode=c['pad_mode'], **kw)
+            if c['spaces'] == 'both':
+                return odl.Divergence(vfs(), sp, method=c['method'], pad_mode=c['pad_mode'], **kw)
+            return odl.Divergence(domain=vfs(), method=c['method'], pad_mode=c['pad_mode'], **kw)
+        o = _o(c, lab, 'method', 'pad_mode', 'spaces', 'pad_const')
+        add('Gradient', o, mkg)
+        add('Divergence', o, mkd)
+    LPADS = ['constant', 'symmetric', 'periodic', 'order0', 'symmetric_adjoint', 'order0_adjoint']
+
+    def lp_ok(c):
+        return c['pad_const'] == 'zero' or (c['pad_const'] == 'nonzero') == (c['pad_mode'] == 'constant')
+    for c in _combos(tier, OD([('pad_mode', LPADS), ('range', ['default', 'given']), ('pad_const', ['zero', 'nonzero', 'nonzero-unused'])]),
+                     dsp_axes, lp_ok):
+        lab, sp = dsp(c)
+
+        def mk(sp=sp, c=c):
+            kw = {'range': sp} if c['range'] == 'given' else {}
+            if c['pad_const'] != 'zero':
+                kw['pad_const'] = 1.5
+            return odl.Laplacian(sp, pad_mode=c['pad_mode'], **kw)
+        add('Laplacian', _o(c, lab, 'pad_mode', 'range', 'pad_const'), mk)
+
+    # ---------------------------------------------------------------- ResizingOperator
+    RSH = {'1d': (4,), '2d': (2, 3)}
+    TGT = {('1d', 'extend'): (6,), ('1d', 'restrict'): (2,), ('1d', 'same'): (4,), ('1d', 'extend-odd'): (7,),
+           ('2d', 'extend'): (3, 4), ('2d', 'restrict'): (1, 2), ('2d', 'same'): (2, 3), ('2d', 'mixed'): (3, 2),
+           ('2d', 'one-axis'): (2, 5)}
+    rs_axes = _space_axes(kinds=('discr',), shapes=('1d', '2d'))
+
+    def rs_ok(c):
+        if (c['shape'], c['dir']) not in TGT:
+            return False
+        if c['how'] == 'range' and (c['offset'] != 'default' or c['discr_kwargs'] != 'none'):
+            return False
+        if c['pad_mode'] == 'order1' and c['shape'] == '2d' and c['dir'] in ('extend', 'mixed'):
+            return True
+        return True
+
+    def rs_mk(sp, c):
+        tgt = TGT[(c['shape'], c['dir'])]
+        kw = {'pad_mode': c['pad_mode']}
+        if c['how'] == 'ran_shp':
+            off = {'default': None, 'zero': 0, 'one': 1, 'per-axis': [1] + [0] * (sp.ndim - 1)}[c['offset']]
+            if off is not None:
+                kw['offset'] = off
+            dk = {'none': None, 'nodes-True': {'nodes_on_bdry': True}, 'nodes-asym': {'nodes_on_bdry': [(True, False)] * sp.ndim}}[c['discr_kwargs']]
+            if dk is not None:
+                kw['discr_kwargs'] = dk
+            return odl.ResizingOperator(sp, ran_shp=tgt, **kw)
+        ran = odl.ResizingOperator(sp, ran_shp=tgt).range
+        return odl.ResizingOperator(sp, ran, **kw)
+    for c in _combos(tier, OD([('how', ['ran_shp', 'range']), ('dir', ['extend', 'restrict', 'same', 'mixed', 'one-axis', 'extend-odd']),
+                               ('offset', ['default', 'zero', 'one', 'per-axis']),
+                               ('pad_mode', ['constant', 'symmetric', 'periodic', 'order0', 'order1']),
+                               ('discr_kwargs', ['none', 'nodes-True', 'nodes-asym'])]), rs_axes, rs_ok):
+        lab, sp = _sp(c, shapes=RSH)
+        o = _o(c, lab, 'how', 'dir', 'offset', 'pad_mode', 'discr_kwargs')
+        if c['discr_kwargs'] != 'none':
+            o['nodes_on_bdry'] = 'True'          # the RANGE has nodes on the boundary
+        try:
+            rs_mk(sp, c)
+        except ValueError:
+            continue            # e.g. an offset that does not fit the shape change: legitimately rejected
+        add('ResizingOperator', o, lambda sp=sp, c=c: rs_mk(sp, c))
+
+    # ---------------------------------------------------------------- Fourier transforms
+    FT_ = odl.trafos
+    impls = ['numpy'] + (['pyfftw'] if FT_.PYFFTW_AVAILABLE else [])
+    FSH = {'1d-even': (4,), '1d-odd': (3,), '2d': (2, 3), '2d-T': (3, 4)}
+
+    def fsp(shape, field, prec):
+        shp = FSH[shape]
+        dt = {('real', 'double'): 'float64', ('real', 'single'): 'float32', ('complex', 'double'): 'complex128',
+              ('complex', 'single'): 'complex64'}[(field, prec)]
+        return odl.uniform_discr([-1.0] * len(shp), [1.0] * len(shp), shp, dtype=dt)
+    AX = {'default': None, 'first': (0,), 'last': (1,), 'neg': (-1,), 'both': (0, 1), 'int': 0, 'swapped': (1, 0)}
+
+    def dft_ok(c):
+        nd = len(FSH[c['shape']])
+        if nd == 1 and c['axes'] in ('last', 'both', 'swapped'):
+            return False
+        if c['halfcomplex'] == 'True' and (c['field'] == 'complex' or c['sign'] == '+'):
+            return False
+        return True
+
+    def dft_mk(c, cls):
+        sp = fsp(c['shape'], c['field'], c['prec'])
+        kw = {'impl': c['impl'], 'sign': c['sign'], 'halfcomplex': c['halfcomplex'] == 'True'}
+        if AX[c['axes']] is not None:
+            kw['axes'] = AX[c['axes']]
+        op = FT_.DiscreteFourierTransform(sp, **kw)
+        if c['range'] == 'given':
+            op = FT_.DiscreteFourierTransform(sp, range=op.range, **kw)
+        if cls == 'inverse':
+            return op.inverse
+        if cls == 'inverse-ctor':
+            kw['sign'] = '+' if c['sign'] == '-' else '-'
+            if c['range'] == 'given':
+                return FT_.DiscreteFourierTransformInverse(sp, domain=op.range, **kw)
+            return FT_.DiscreteFourierTransformInverse(sp, **kw)
+        return op
+    for c in U.cross(tier, OD([('shape', list(FSH)), ('axes', list(AX)), ('sign', ['-', '+']), ('halfcomplex', ['False', 'True']),
+                               ('impl', impls), ('range', ['default', 'given']), ('field', ['real', 'complex']),
+                               ('prec', ['double', 'single'])]), dft_ok):
+        o = {k: c[k] for k in ('shape', 'axes', 'sign', 'halfcomplex', 'impl', 'range', 'field')}
+        if c['prec'] == 'single':
+            o['prec'] = 'single'
+        add('DiscreteFourierTransform', o, lambda c=c: dft_mk(c, 'forward'))
+        add('DiscreteFourierTransformInverse', o, lambda c=c: dft_mk(c, 'inverse'))
+        add('DiscreteFourierTransformInverse', dict(o, ctor='direct'), lambda c=c: dft_mk(c, 'inverse-ctor'))
+    SHIFT = {'default': None, 'False': False, 'per-axis': 'per-axis'}
+
+    def ft_ok(c):
+        if not dft_ok(c):
+            return False
+        if c['halfcomplex'] == 'True' and c['shift'] == 'False':
+            return False            # documented: the halved axis must be shifted
+        if c['field'] == 'real' and c['halfcomplex'] == 'default' and (c['shift'] == 'False' or c['sign'] == '+'):
+            return False            # halfcomplex defaults to True for real spaces
+        return True
+
+    def ft_mk(c, inverse):
+        sp = fsp(c['shape'], c['field'], c['prec'])
+        kw = {'impl': c['impl'], 'sign': c['sign']}
+        if c['halfcomplex'] != 'default':
+            kw['halfcomplex'] = c['halfcomplex'] == 'True'
+        if AX[c['axes']] is not None:
+            kw['axes'] = AX[c['axes']]
+        nax = sp.ndim if AX[c['axes']] is None else (1 if isinstance(AX[c['axes']], int) else len(AX[c['axes']]))
+        if c['shift'] == 'False':
+            kw['shift'] = False
+        elif c['shift'] == 'per-axis':
+            kw['shift'] = [False] * (nax - 1) + [True]
+        op = FT_.FourierTransform(sp, **kw)
+        if c['range'] == 'given':
+            op = FT_.FourierTransform(sp, range=op.range, **kw)
+        if c['tmp'] == 'given':
+            op.create_temporaries()
+        return op.inverse if inverse else op
+    for c in U.cross(tier, OD([('shape', list(FSH)), ('axes', list(AX)), ('sign', ['-', '+']), ('halfcomplex', ['default', 'False', 'True']),
+                               ('shift', list(SHIFT)), ('impl', impls), ('range', ['default', 'given']), ('tmp', ['none', 'given']),
+                               ('field', ['real', 'complex']), ('prec', ['double', 'single'])]), ft_ok):
+        o = {k: c[k] for k in ('shape', 'axes', 'sign', 'halfcomplex', 'shift', 'impl', 'range', 'tmp', 'field')}
+        if c['prec'] == 'single':
+            o['prec'] = 'single'
+        add('FourierTransform', o, lambda c=c: ft_mk(c, False))
+        add('FourierTransformInverse', o, lambda c=c: ft_mk(c, True))
+
+    # ---------------------------------------------------------------- wavelet transforms
+    if FT_.PYWT_AVAILABLE:
+        WSH = {'1d': (8,), '1d-odd': (5,), '2d': (4, 2), '2d-T': (2, 4), '3d': (2, 2, 2)}
+        WSD = {'1d': [0.5], '1d-odd': [0.5], '2d': [0.5, 2.0], '2d-T': [1.0, 0.25], '3d': [0.5, 1.0, 2.0]}
+        WAX = {'default': None, 'first': (0,), 'last-neg': (-1,), 'int': 0, 'int-neg': -1, 'all': 'all', 'swapped': 'swapped'}
+        FLEN = {'haar': 2, 'db1': 2, 'db2': 4, 'sym2': 4, 'coif1': 6}
+
+        def wv_axes(c):
+            shp = WSH[c['shape']]
+            a = WAX[c['axes']]
+            if a == 'all':
+                a = tuple(range(len(shp)))
+            elif a == 'swapped':
+                a = tuple(range(len(shp)))[::-1]
+            return a
+
+        def wv_lens(c):
+            shp = WSH[c['shape']]
+            a = wv_axes(c)
+            a = range(len(shp)) if a is None else ([a] if isinstance(a, int) else a)
+            return [shp[i] for i in a]
+
+        def wv_ok(c):
+            lens = wv_lens(c)
+            nl = {'default': None, '1': 1, '2': 2}[c['nlevels']]
+            if c['axes'] == 'swapped' and len(WSH[c['shape']]) == 1:
+                return False
+            if nl is not None:
+                import pywt
+                if any(pywt.dwt_max_level(n, FLEN[c['wavelet']]) < nl for n in lens):
+                    return False
+            else:
+                import pywt
+                if min(pywt.dwt_max_level(n, FLEN[c['wavelet']]) for n in lens) < 1:
+                    return False
+            return True
+
+        def wv_mk(c, inverse):
+            lab_, sp = U.mk_space('discr', c['field'], c['prec'], shape=c['shape'], shapes=WSH, sides=WSD)
+            kw = {'pad_mode': c['pad_mode']}
+            nl = {'default': None, '1': 1, '2': 2}[c['nlevels']]
+            if nl is not None:
+                kw['nlevels'] = nl
+            a = wv_axes(c)
+            if a is not None:
+                kw['axes'] = a
+            if c['pad_const'] == 'zero-given':
+                kw['pad_const'] = 0.0
+            if inverse == 'ctor':
+                return FT_.WaveletTransformInverse(sp, c['wavelet'], **kw)
+            op = FT_.WaveletTransform(sp, c['wavelet'], **kw)
+            return op.inverse if inverse else op
+        for c in U.cross(tier, OD([('wavelet', list(FLEN)), ('nlevels', ['default', '1', '2']),
+                                   ('pad_mode', ['pywt_periodic', 'constant', 'periodic', 'symmetric', 'order0', 'order1', 'reflect',
+                                                 'antisymmetric', 'antireflect']),
+                                   ('pad_const', ['default', 'zero-given']), ('axes', list(WAX)), ('shape', list(WSH)),
+                                   ('field', ['real', 'complex']), ('prec', ['double', 'single'])]), wv_ok):
+            o = {k: c[k] for k in ('wavelet', 'nlevels', 'pad_mode', 'pad_const', 'axes', 'shape', 'field')}
+            if c['prec'] == 'single':
+                o['prec'] = 'single'
+            # the discrete transform is orthogonal only if no boundary extension is involved: filters of length 2 on even
+            # lengths, or periodisation on lengths divisible by 2^levels
+            lens = wv_lens(c)
+            nl = {'default': None, '1': 1, '2': 2}[c['nlevels']]
+            import pywt
+            lv = nl if nl is not None else min(pywt.dwt_max_level(n, FLEN[c['wavelet']]) for n in lens)
+            even = all(n % (2 ** lv) == 0 for n in lens)
+            o['boundary'] = 'untouched' if even and (FLEN[c['wavelet']] == 2 or c['pad_mode'] == 'pywt_periodic') else 'touched'
+            add('WaveletTransform', o, lambda c=c: wv_mk(c, False))
+            add('WaveletTransformInverse', o, lambda c=c: wv_mk(c, True))
+            add('WaveletTransformInverse', dict(o, ctor='direct'), lambda c=c: wv_mk(c, 'ctor'))
